@@ -81,7 +81,8 @@ class HandlerCollection:
         # understand, so I am commenting it heavily.
         itor = Interactor(fn)
         next_selectors = []
-        # The pairs that this call adds, each with the pair it derives from
+        # What this call adds: for each pair that matches fn, the selector,
+        # the accumulator it came with and the one used inside the call
         own = []
         seen = set()
 
@@ -132,7 +133,7 @@ class HandlerCollection:
                 # elements of the current selector can be triggered
                 for child in selector.children:
                     push(child, acc)
-                    own.append(((child, acc), source))
+                own.append([selector, source[1], acc])
         rval = HandlerCollection(next_selectors)
         rval.own = own
         return itor, rval
@@ -216,31 +217,58 @@ class proceed:
         """Whoever resumes the generator is not who it last yielded to.
 
         The call is now running under the resumer's activations, with the
-        probes and overlays that are active there now: it carries on with
-        the resumer's pairs, as a call made from there would, plus those of
-        the pairs it added itself when it was entered that derive from a pair
-        the resumer still has (that of a probe that is still active, that of
-        an enclosing function that is running).
+        probes and overlays that are active there now. It carries on with the
+        resumer's pairs, as a call made from there would, plus the pairs it
+        adds itself: those it added when it was entered, as far as the pair
+        they derive from is still there (a probe that is still active, an
+        enclosing call that is still running), and new ones where a function
+        on its path is running again -- a new call of it resumes us: the
+        values of that call are the ones that count from now on.
         """
         outer_pairs = self.outer.handler_pairs if self.outer else []
+        there = {id(acc) for _, acc in outer_pairs}
         pairs = []
         seen = set()
 
-        def push(pair):
-            key = (id(pair[0]), id(pair[1]))
+        def push(selector, acc):
+            key = (id(selector), id(acc))
             if key not in seen:
                 seen.add(key)
-                pairs.append(pair)
+                pairs.append((selector, acc))
 
         for selector, acc in outer_pairs:
             if not selector.immediate:
-                push((selector, acc))
-            for pair, (src_selector, src_acc) in self.own:
-                # (The same selector with another accumulator of the same
-                # probe or overlay: the function it names is running again,
-                # a new call of it resumes us)
-                if src_selector is selector and src_acc.origin is acc.origin:
-                    push(pair)
+                push(selector, acc)
+            inside = None
+            stale = []
+            for group in self.own:
+                if group[0] is selector and group[1].origin is acc.origin:
+                    if group[1] is acc:
+                        inside = group[2]
+                    elif id(group[1]) not in there:
+                        stale.append(group)
+            if inside is None and stale and not acc.template:
+                # Enter the new call's pair as we did the old one's, whose
+                # call is over
+                gone = {id(group[2]) for group in stale}
+                for registered in self.interactor.accumulators.values():
+                    registered[:] = [
+                        (element, racc)
+                        for element, racc in registered
+                        if id(racc) not in gone
+                    ]
+                self.own = [
+                    group
+                    for group in self.own
+                    if all(group is not other for other in stale)
+                ]
+                inside = acc.fork() if selector.focus else acc
+                capmap = _selector_fit_cache[(self.fn, selector)]
+                self.interactor.register(inside, capmap, close_at_exit=False)
+                self.own.append([selector, acc, inside])
+            if inside is not None:
+                for child in selector.children:
+                    push(child, inside)
         self.inner = HandlerCollection(pairs)
 
     def __exit__(self, typ, exc, tb):
